@@ -256,6 +256,7 @@ fn ata22(owner: &Pubkey, mint: &Pubkey) -> Pubkey { anchor_spl::associated_token
 // ---------------------------------------------------------------- the world
 
 const UNIT_PRICE_DECIMALS: u8 = 8;
+const SPREAD_DIV: u128 = 200;
 
 #[derive(Clone)]
 struct World {
@@ -392,7 +393,8 @@ impl World {
         for (i, p) in [long_price, short_price].into_iter().enumerate() {
             let st = self.b.get(&self.feeds[i]);
             let mut f: PriceFeed = pod(&st.data);
-            let mut price = PriceFeedPrice::new(UNIT_PRICE_DECIMALS, ts, p, p, p, 0);
+            // a real spread: min < price < max (0.5 % each side), so minimised and maximised values differ
+            let mut price = PriceFeedPrice::new(UNIT_PRICE_DECIMALS, ts, p, p - p / SPREAD_DIV, p + p / SPREAD_DIV, 0);
             price.set_flag(gmsol_utils::price::PriceFlag::Open, true);
             gmsol_store::verif::c24::price_feed_update(&mut f, &price, 3600, true).expect("feed update");
             self.b.set(self.feeds[i], AccState { data: disc(&f), ..st });
@@ -524,6 +526,18 @@ impl World {
     }
 }
 
+impl World {
+    /// the real `get_glv_token_value` instruction: USD value (unit 10^-20) of `amount` GLV tokens, maximised or minimised
+    fn glv_token_value(&mut self, amount: u64, maximize: bool) -> Option<u128> {
+        let pid = gmsol_store::ID;
+        let metas = [sg(self.keeper), ro(self.store), ro(self.token_map), rw(self.oracle), ro(self.glv), ro(self.glv_token), ro(self.event_authority), ro(pid),
+            ro(self.market[0]), ro(self.market[1]), ro(self.mt[0]), ro(self.mt[1]), ro(self.feeds[0]), ro(self.feeds[1])];
+        self.b.run(pid, &metas, &gmsol_store::instruction::GetGlvTokenValue { amount, maximize, max_age: 3600, emit_event: false }.data()).ok()?;
+        let r = RETURN.lock().unwrap().clone()?;
+        Some(u128::from_le_bytes(r.1.get(..16)?.try_into().ok()?))
+    }
+}
+
 fn user_key(u: u8) -> Pubkey { Pubkey::new_from_array([100 + u; 32]) }
 fn bal(w: &World, owner: &Pubkey, mint: &Pubkey) -> u64 { let k = if *mint == w.glv_token { ata22(owner, mint) } else { ata(owner, mint) }; token_amount(&w.b, &k).unwrap_or(0) }
 fn glv_recorded(w: &World) -> [u64; 2] {
@@ -615,8 +629,11 @@ fn result_amounts(w0: &World, w1: &World, id: Id, a: &Act) -> (u64, u64, u64) {
     if id.1 == 'd' { (g1 - g0 - e0.2, e1.3 - e0.3, 0) } else { (g0 - g1, e1.0 - e0.0, e1.1 - e0.1) }
 }
 
-/// value of collateral at the (fixed) oracle prices, in units of 10^-(8) USD per smallest unit
-fn value(long: u64, short: u64) -> u128 { long as u128 * PL + short as u128 * PS * 1000 /* 9 vs 6 decimals */ }
+/// USD value (unit 10^-20) of collateral at the given feed prices (8 decimals; long has 9, short 6 token decimals)
+fn value_at(long: u64, short: u64, pl: u128, ps: u128) -> u128 { long as u128 * pl * 1_000 + short as u128 * ps * 1_000_000 }
+fn value(long: u64, short: u64) -> u128 { value_at(long, short, PL, PS) }
+fn value_lo(long: u64, short: u64) -> u128 { value_at(long, short, PL - PL / SPREAD_DIV, PS - PS / SPREAD_DIV) }
+fn value_hi(long: u64, short: u64) -> u128 { value_at(long, short, PL + PL / SPREAD_DIV, PS + PS / SPREAD_DIV) }
 
 /// (v) PRICE IN THE VAULT'S FAVOUR, on clones of the world: user `u` deposits `long`/`short` into the GLV through market `m`
 /// and immediately withdraws the minted GLV tokens at unchanged prices; a second holder's redemption value is sampled
@@ -645,11 +662,19 @@ fn round_trip(s: &Sid, u: u8, m: usize, long: u64, short: u64, out: &mut Out) ->
     let (l0, s0, g0) = (bal(&w, &owner, &w.long), bal(&w, &owner, &w.short), bal(&w, &owner, &w.glv_token));
     let key = w.gd_key(&owner, &[200; 32]);
     for x in [w.glv_token, w.mt[m], w.long, w.short] { w.prepare_ata(owner, key, x).ok()?; }
+    let mut pre_deposit = w.clone();
     let a = w.create_glv_deposit(owner, m, [200; 32], 0, long, short, 0, 300_000).ok()?;
     w.execute_glv_deposit(w.keeper, &a, 0, true).ok()?;
     w.close_glv_deposit(owner, &a).ok()?;
     let minted = bal(&w, &owner, &w.glv_token) - g0;
     if minted == 0 { out.stat("rt.minted_zero"); return None; }
+    // DIRECTION of the deposit pricing: the GLV tokens received, valued at the MAXIMISED GLV value before the deposit (the real
+    // `get_glv_token_value`), are worth no more than the deposited collateral at MINIMISED prices
+    if let Some(vg) = pre_deposit.glv_token_value(minted, true) {
+        out.stat("rt.deposit_direction_checked");
+        if vg > value_lo(long, short) { return Some(format!("GLV deposit priced against the vault: {minted} GLV tokens are worth {vg} (maximised GLV value) for collateral worth {} at minimised prices", value_lo(long, short))); }
+    }
+    let mut pre_withdrawal = w.clone();
     let key = w.gw_key(&owner, &[202; 32]);
     for x in [w.glv_token, w.mt[m], w.long, w.short] { w.prepare_ata(owner, key, x).ok()?; }
     let a = w.create_glv_withdrawal(owner, m, [202; 32], minted, 0, 0, 300_000).ok()?;
@@ -657,6 +682,15 @@ fn round_trip(s: &Sid, u: u8, m: usize, long: u64, short: u64, out: &mut Out) ->
     w.close_glv_withdrawal(owner, &a).ok()?;
     out.stat("rt.completed");
     let (l1, s1) = (bal(&w, &owner, &w.long), bal(&w, &owner, &w.short));
+    // DIRECTION of the withdrawal pricing: what is paid out, valued at MAXIMISED prices, is worth no more than the burned GLV
+    // tokens at the MINIMISED GLV value before the withdrawal
+    let (out_l, out_s) = (l1 + long - l0, s1 + short - s0);
+    if let Some(vg) = pre_withdrawal.glv_token_value(minted, false) {
+        out.stat("rt.withdrawal_direction_checked");
+        if value_hi(out_l, out_s) > vg { return Some(format!("GLV withdrawal priced against the vault: paid {out_l}/{out_s} worth {} at maximised prices for {minted} GLV tokens worth {vg} (minimised GLV value)", value_hi(out_l, out_s))); }
+    }
+    // and the whole round trip never gains, at ANY prices inside the published band
+    if value_hi(out_l, out_s) > value_lo(long, short) { return Some(format!("round trip gains inside the price band: paid out {out_l}/{out_s} worth {} at maximised prices for {long}/{short} worth {} at minimised prices", value_hi(out_l, out_s), value_lo(long, short))); }
     let (vin, vout) = (value(l0, s0), value(l1, s1));
     if vout > vin { return Some(format!("GLV deposit+withdrawal round trip returned more value than went in: {vin} -> {vout} (long {l0}->{l1}, short {s0}->{s1})")); }
     if let (Some(a0), Some(a1)) = (v_other0, sample(&w)) {
